@@ -183,7 +183,9 @@ Print Assumptions iso_datetime_regex_rejects_P.
    float `total_seconds() - (years*365 + months*30)*86400`; the model marks that E_Exception ("outside the modelled fragment" of
    Duration's derived fields — it is NOT an exception of the real code, and NOT a listed finding).  The region is empty in reality
    (the components of a parsed duration are non-negative and rounding to nearest is monotone); proving it needs the real-number
-   semantics of Model/DurParse.v int_truediv / fsub (not linked to Flocq), which is what is missing.  The predicate is decidable. *)
+   semantics of Model/DurParse.v int_truediv / fsub (not linked to Flocq), which is what is missing.  The predicate is decidable.
+   SUPERSEDED by theorems 18-20: py_parts now computes the negative case of Duration.__new__ faithfully (no marker), the region is
+   empty on every text and parse_total_py / parse_total are unconditional; this form is kept as stated. *)
 Theorem parse_total_py_partial : forall (du : list Z -> bool -> bool -> result pval),
   (forall s a b, match du s a b with Ok _ | Raise E_ValueError | Raise E_ParserError | Raise E_OverflowError => True | Raise _ => False end) ->
   forall o s, py_parts_unmodelled s = false -> out_ok (parse_full du false o s).
@@ -226,3 +228,25 @@ Proof.
   intros du H rs o s R. destruct rs; [exact (parse_total_rs du H o s)|exact (parse_total_py_region du H o s (R eq_refl))].
 Qed.
 Print Assumptions parse_total_partial.
+
+(* ------------------------------------------------------------ unconditional forms (Model/DurParse.v py_parts computes the negative case) *)
+(* 18. the model of Duration's derived fields (Duration.__new__: m = -1 if total < 0 else 1, every derived field multiplied by m /
+   _sign(_seconds)) never raises: the region of theorem 14 is empty on EVERY text *)
+Theorem py_parts_region_empty : forall s, py_parts_unmodelled s = false.
+Proof. exact py_parts_unmodelled_never. Qed.
+Print Assumptions py_parts_region_empty.
+
+(* 19. parse_total, pure-Python backend, UNCONDITIONAL: every string, every option combination, any dateutil that returns a datetime or
+   raises ValueError/ParserError/OverflowError: a supported value or ValueError/ParserError — nothing else *)
+Theorem parse_total_py : forall (du : list Z -> bool -> bool -> result pval),
+  (forall s a b, match du s a b with Ok _ | Raise E_ValueError | Raise E_ParserError | Raise E_OverflowError => True | Raise _ => False end) ->
+  forall o s, out_ok (parse_full du false o s).
+Proof. exact parse_total_py_full. Qed.
+Print Assumptions parse_total_py.
+
+(* 20. parse_total, EITHER backend, unconditional *)
+Theorem parse_total : forall (du : list Z -> bool -> bool -> result pval),
+  (forall s a b, match du s a b with Ok _ | Raise E_ValueError | Raise E_ParserError | Raise E_OverflowError => True | Raise _ => False end) ->
+  forall (rs : bool) o s, out_ok (parse_full du rs o s).
+Proof. intros du H rs o s. destruct rs; [exact (parse_total_rs du H o s)|exact (parse_total_py_full du H o s)]. Qed.
+Print Assumptions parse_total.
